@@ -5,8 +5,13 @@
 (* owned  caller-owned arrays: id -> content digest (right-hand sides,     *)
 (*        initial guesses, start vectors, index arrays, and the arrays the *)
 (*        pool operators were built from)                                  *)
-(* ops    live operators in order of creation:                             *)
-(*        <<dense digest, annotation set, flatten-leaves digest>>          *)
+(* ops    live operators in order of creation, each the FULL OBSERVABLE    *)
+(*        STATE of the operator:                                           *)
+(*        <<dense digest, annotation set, flatten-leaves digest,           *)
+(*          state digest>>   where the state digest covers shape, dtype,   *)
+(*        the static fields and every attribute reachable from the         *)
+(*        instance, public or hidden (arrays inside algorithm objects,     *)
+(*        remembered solutions, caches, ...)                               *)
 (* memo   call signature -> result digest, for every call made so far      *)
 (*                                                                         *)
 (* Every public operation is an instance of Call: it may return a value    *)
@@ -48,6 +53,17 @@ Call(sig, res, created) ==
     /\ ops' = ops \o created
     /\ MemoOk(memo, sig, res)
     /\ memo' = Remember(memo, sig, res)
+
+(* OPERANDS.  An operation of the operator algebra (negation, subtraction, scalar multiplication / division on     *)
+(* either side - negative, complex and zero scalars included -, sum, product, kron, kronsum, block_diag, .T, .H,   *)
+(* slicing, declaration wrappers PSD / SelfAdjoint / Unitary / Stiefel) and the application of an operator to an   *)
+(* array are Calls whose operands xs are entries of ops.  FrameOps leaves EVERY component of EVERY pre-existing    *)
+(* entry unchanged: an operand keeps its matrix, its ANNOTATIONS (whatever the operation concludes about the       *)
+(* annotations of its result), its leaves and its whole state; and since the result is a function of the operands  *)
+(* (MemoOk), repeating the call - directly or after unrelated calls on the same operator - returns the same.       *)
+CallOnOperands(sig, res, created, xs) ==
+    /\ xs \subseteq 1..Len(ops)
+    /\ Call(sig, res, created)
 
 (* a call one of whose arguments is the caller-owned array `arg` (in whatever layout owned[arg] records) *)
 CallOnArgument(sig, res, created, arg) ==
